@@ -44,8 +44,37 @@ NOTES = {
  'C13-axle-skips-identical-value': 'axle: a newer command whose value equals the one already relayed keeps the old stamp',
  'C15-follow-get-or-insert': 'follow() while a followed getter is already installed keeps the old one (`get_or_insert`)',
  'C20-encoder-swallows-fromnone': 'GetterStateDeviceWrapper: inner getter returns `Error::FromNone` specifically (treated as absent)',
+ 'C02-expirer-deadline-overflow': 'Expirer with a huge ("never expires") limit: `stamp + limit` overflows although `now - stamp` does not',
+ 'C04-derivative-one-ulp-deadband': 'PID: consecutive errors that are neighbouring floats (1-2 ulps apart) with kd != 0 and a short interval',
+ 'C05-ewma-tie-across-error': 'EWMA: the first sample after an error carries the same timestamp as the last sample before it',
+ 'C09-command-write-dropped-if-partner-newer': 'command written to a connected terminal whose partner holds a strictly newer one, then a link change or an older partner write',
+ 'C12-ewma-smoothing-one-shortcut': 'EWMA with smoothing constant exactly 1.0 and a repeated timestamp (0^0)',
+ 'C16-to-dyn-arc-variants-dangle': '`to_dyn!` on an Arc-backed Reference (previously refused) returns a handle that does not keep the target alive',
+ 'C17-arcmutex-sole-owner-fast-path': 'ArcMutex borrow_mut skips the lock when it is the sole strong owner; another thread upgrades a Weak meanwhile',
+ 'C19-libm-powf-whole-exponent-squaring': 'no_std+libm only: powf with a whole-number exponent by repeated squaring (dozens of ulps for large |n|, 0 for subnormal results)',
 }
 HISTORY = {
+ 'C02-expirer-deadline-overflow': 'MISSED at both tiers: expiry limits were at most 5 s and expirers were excluded from the extreme-timestamp runs (the age '
+   '`now - stamp` itself overflows there). A quarter of the runs containing an expirer now use a huge limit (i64::MAX, i64::MAX - 1, i64::MAX/2 + 10, 2^62) with '
+   'non-negative stamps and clocks, where the age is representable but `stamp + limit` is not. Caught at quick tier since.',
+ 'C04-derivative-one-ulp-deadband': 'MISSED at both tiers, for two reasons: no generator produced consecutive samples one ulp apart, and the reference model gave '
+   'every subtraction an uncertainty of half an ulp of its result even when IEEE arithmetic makes it exact, so a difference of neighbouring floats was '
+   'as uncertain as it was large. The model now treats a sum/difference of exactly known values whose result is an f32 as exact (Sterbenz), and 8 % of '
+   'the node runs walk their samples by 1..3 ulps with the setpoint / command at 0. Caught at quick tier since.',
+ 'C05-ewma-tie-across-error': 'caught by C12/quick and C05/thorough but MISSED by C05/quick: repeated timestamps were only generated inside error-free stretches '
+   '(C12 profile). In every node run the first sample after an error now repeats the last stamp before it with probability 0.2 (a restarted stream has '
+   'no memory, so this is inside every stateful property\'s domain). Caught by C05/quick since.',
+ 'C16-to-dyn-arc-variants-dangle': 'C17/quick reported it (as a run that never returns: locking a freed mutex) only after the batch got a hang watchdog; before, '
+   'the check itself hung. C16 MISSED it at quick tier (thorough: Miri use-after-free in a random history): the Miri reference program tried `to_dyn!` on the '
+   'Rc variant only. It now tries every variant (a refusal is fine) and has a directed convert / drop-all-concrete-handles / use case per variant. '
+   'Caught by C16/quick since.',
+ 'C17-arcmutex-sole-owner-fast-path': 'MISSED at both tiers: every shuttle thread owned a strong clone and the spawning thread kept one, so the strong count '
+   'never reached 1 while borrows were contended. New ownership shape: the spawning thread holds the only strong handle and works alongside threads that '
+   'hold `Weak`s and upgrade one per operation. Caught at quick tier since (lost increments).',
+ 'C19-libm-powf-whole-exponent-squaring': 'MISSED at both tiers: power-function results were compared with a tolerance of 1e-4 of the run\'s largest value (needed '
+   'downstream of EWMA recursions), and exponents were "moderate" floats. The value-level API world now reads the power function directly '
+   '(ExponentStream over two constants) on a 13 x 28 base x exponent grid (whole exponents up to +-1000 and 2^31, subnormal results) plus random cases, and '
+   'std vs libm must agree there to 4 ulps (measured: at most 1). Caught at quick tier since.',
  'C11-drops-samples-closer-than-epsilon': 'MISSED at both tiers: the shortest sampling interval the node generator produced was 1 us (the bound C04 and C10 state), '
    'but C11 and C12 state no lower bound. A sixth of the cpid / EWMA runs now sample at 1 ns .. 1 us spacing with the 118..121 ns neighbourhood as '
    'special values. Caught at quick tier since.',
